@@ -98,7 +98,8 @@ def check(ID, n, checks):
 
 def keep(ID, n):
     O = '%s/%s_out' % (MUT, ID)
-    D = os.path.join(VERIF, 'seeded', '%s-%s' % (ID, n))
+    pid = re.search(r'C\d\d', ID).group(0)
+    D = os.path.join(VERIF, 'seeded', '%s-%s' % (pid, n))
     os.makedirs(D, exist_ok=True)
     shutil.copy('%s/patch%s.diff' % (O, n), D + '/patch.diff')
     shutil.copy('%s/demo%s.py' % (O, n), D + '/demo.py')
@@ -110,7 +111,7 @@ def keep(ID, n):
     lines_ = [l.strip(' -*#') for l in notes.split('\n') if l.strip(' -*#')]
     need_ = [l for l in lines_ if re.search(r'need|manifest|requires|only when|trigger', l, re.I)]
     summary = (need_[0] if need_ else (lines_[1] if len(lines_) > 1 else (lines_[0] if lines_ else '')))[:300]
-    meta = dict(property=ID[:3], worktree=ID, files=conf.get('files'), kind=conf.get('kind'), summary=summary,
+    meta = dict(property=pid, worktree=ID, files=conf.get('files'), kind=conf.get('kind'), summary=summary,
                 needs_to_manifest=notes[:1500],
                 confirmed=dict(demo_on_unmodified_tree_rc=conf.get('demo_clean_rc'), demo_with_change_rc=conf.get('demo_patched_rc'),
                                test_suite_with_change=conf.get('suite'),
@@ -129,7 +130,7 @@ if __name__ == '__main__':
     if cmd == 'confirm':
         print(ID, n, json.dumps(confirm(ID, n))[:600])
     elif cmd == 'check':
-        r = check(ID, n, sys.argv[4:] or [ID])
+        r = check(ID, n, sys.argv[4:] or [re.search(r'C\d\d', ID).group(0)])
         print(ID, n, json.dumps({c: (v['rc'], v['with_input'], v['what'][:160]) for c, v in r.items()}))
     elif cmd == 'keep':
         print(json.dumps(keep(ID, n))[:300])
